@@ -5,6 +5,7 @@ import (
 	"math/big"
 	"sort"
 	"strings"
+	"unicode"
 
 	"pgregory.net/rapid"
 	"verifharness/smfread"
@@ -409,6 +410,9 @@ func genValues(maxFracs int) *rapid.Generator[[]Frac] {
 
 var unicodeLetters = []rune("éüß日本語🎵♯♭Ωж")
 
+// anyLetters: words in any script (the code points, not a hand-picked handful, decide what a byte-oriented shortcut breaks)
+var anyLetters = rapid.StringOfN(rapid.RuneFrom(nil, unicode.Han, unicode.Latin, unicode.Cyrillic, unicode.Greek, unicode.Hiragana, unicode.Katakana, unicode.Hangul, unicode.Arabic, unicode.Hebrew, unicode.Devanagari, unicode.Thai), 1, 8, -1)
+
 var textPool = []string{"a: b", "- x", "#h", "trail ", "multi\nline", "\"q\"", "true", "null", "~", "é日本🎵", "{x}", "a,b", "k=v", "|", ">", "'", "&a", "*a", "!t", "%", "@", "`", "a\u0085b", "a b", "x\x01y", "tab\there", " ", "[1]", "key: C", "0", "1e3", "0x10", "yes", "a #c", "C#m7", "♯♭"}
 
 // genText: free text for txt/lic/mrk. Texts that start with whitespace AND
@@ -417,6 +421,7 @@ var textPool = []string{"a: b", "- x", "#h", "trail ", "multi\nline", "\"q\"", "
 var genText = rapid.OneOf(
 	rapid.StringMatching(`[a-zA-Z0-9][a-zA-Z0-9 ]{0,11}`),
 	rapid.StringOfN(rapid.RuneFrom(unicodeLetters), 1, 10, -1),
+	anyLetters,
 	rapid.SampledFrom(textPool),
 	rapid.StringMatching(`[a-z:#\-{}\[\]&*!|>'"%@, ]{1,10}`),
 )
@@ -573,6 +578,13 @@ func genDoc(o DocOpts) *rapid.Generator[Doc] {
 			}
 		}
 		_ = hasChord // `write` accepts documents made of rests only
+		if o.Meta > 0 && coin(t, "closing-rest-with-text", 4) {
+			// the piece ends on a rest that carries a text ending in line breaks: in crd's own printing that text is
+			// the last scalar of the document, a block scalar whose final line breaks are the last bytes of the file
+			k := rapid.SampledFrom([]string{"mrk", "lic", "txt"}).Draw(t, "closing-key")
+			v := rapid.SampledFrom([]string{"fine\n", "la\n\n", "end of part 1\n", "x\n\n\n"}).Draw(t, "closing-text")
+			d.Insts = append(d.Insts, Inst{Values: []Frac{{1, 1}}, Txt: map[string]string{k: v}})
+		}
 		capTotal(&d)
 		d.Flags = genFlags(o).Draw(t, "flags")
 		d.Plain = coin(t, "plain-yaml", 35)
